@@ -1,4 +1,5 @@
 import GqlProofs.Validate.OverlapMain
+import GqlProofs.ValSpec.Present
 /-
   `sameArguments` on documents that satisfy UniqueArgumentNames (§5.4.2) and UniqueInputFieldNames
   (§5.6.3): it is reflexive and symmetric, so the hypotheses `ArgsRefl` / `ArgsSym` of the
